@@ -205,7 +205,31 @@ def degenerate_recipe(draw, long_sizes):
         elif g.chance(3):
             items.append(_tail_chain(g, True, g.chance(3)))
         routines.append({"name": "d%d" % i, "kind": "sub", "params": [], "ret": ret, "locals": {}, "body": ["seq", items] if g.chance(8) else (items[0] if len(items) == 1 else ["seq", items])})
-    kind = g.i(0, 11)
+    kind = g.i(0, 12)
+    if kind == 12:
+        # a variable shared by main and a routine, written only inside the routine main calls before reading it (legal:
+        # the load-before-store check treats slots shared between routines as initialised)
+        g.vars.clear()
+        nsh = g.i(1, 3)
+        for j in range(nsh):
+            g.vars["sh%d" % j] = {"t": "U", "slot": g.pick([None, None, 200 + j])}
+        wbody = [["store", "sh%d" % j, ["int", 5 + j]] for j in range(nsh)]
+        routines = [{"name": "w0", "kind": "sub", "params": [], "ret": g.pick(["N", "U"]), "locals": {}, "body": None}]
+        if routines[0]["ret"] == "U":
+            wbody.append(["int", 1])
+        routines[0]["body"] = ["seq", wbody]
+        call = ["callN", 0, []] if routines[0]["ret"] == "N" else ["pop", ["call", 0, []]]
+        shape = g.i(0, 2)
+        reads = [["pop", ["load", "sh%d" % j]] for j in range(nsh)]
+        if shape == 0:
+            items = [call] + reads
+        elif shape == 1:
+            items = [["if", _cond(g), call, None, "then"]] + reads
+        else:
+            items = [call, ["if", _cond(g), ["seq", reads], None, "then"]] + reads[:1]
+        nr = 0
+        items.append(["int", 1])
+        return {"mode": g.mode, "level": 4, "vars": g.vars, "routines": routines, "main": ["seq", items], "degenerate": True}
     if kind == 0:
         nlong = g.pick(long_sizes)
         items = [["pop", ["int", j % 7]] for j in range(nlong)]
